@@ -186,6 +186,180 @@ func runC33(c *eng.Ctx) {
 		}
 		c.Check("R5", "promql", "index-below-variable sites found (≥ 10 confirmed by reading)", len(bySite) >= 10, "", fmt.Sprint(len(bySite)))
 	}
+	// ---- R6 an index by `len(a) − 1` held in a variable needs a non-empty a ----
+	{
+		n := 0
+		for _, fs := range p.AllFuncs() {
+			if fs.Pkg.PkgPath != "github.com/prometheus/prometheus/promql" || strings.HasSuffix(p.Pos(fs.Decl.Pos()), "_test.go") {
+				continue
+			}
+			g := c.FnOfSrc(fs)
+			// variables defined exactly once as len(a) - 1
+			lastOf := map[string]string{}
+			multi := map[string]bool{}
+			ast.Inspect(g.Body, func(x ast.Node) bool {
+				as, ok := x.(*ast.AssignStmt)
+				if !ok || len(as.Lhs) != 1 || len(as.Rhs) != 1 {
+					return true
+				}
+				id, ok := as.Lhs[0].(*ast.Ident)
+				if !ok {
+					return true
+				}
+				be, ok := as.Rhs[0].(*ast.BinaryExpr)
+				if ok && be.Op.String() == "-" && nodeText(be.Y) == "1" {
+					if call, ok := be.X.(*ast.CallExpr); ok && nodeText(call.Fun) == "len" && len(call.Args) == 1 && as.Tok.String() == ":=" {
+						lastOf[id.Name] = nodeText(call.Args[0])
+						return true
+					}
+				}
+				if _, had := lastOf[id.Name]; had {
+					multi[id.Name] = true
+				}
+				return true
+			})
+			ast.Inspect(g.Body, func(x ast.Node) bool {
+				ix, ok := x.(*ast.IndexExpr)
+				if !ok {
+					return true
+				}
+				id, ok := ix.Index.(*ast.Ident)
+				if !ok {
+					return true
+				}
+				arr, isLast := lastOf[id.Name]
+				if !isLast || nodeText(ix.X) != arr {
+					return true
+				}
+				n++
+				what := "index " + arr + "[" + id.Name + "] with " + id.Name + " := len(" + arr + ") - 1 in " + eng.Short(g.Name) + " is reached only with a non-empty " + arr
+				c.Check("R6", g.Name, what, lastIndexGuarded(g.Graph, ix, arr, id.Name), p.Pos(ix.Pos()), "no test of len("+arr+") protects it")
+				return true
+			})
+		}
+		c.Check("R6", "promql", "last-element-by-variable sites found (≥ 3)", n >= 3, "", fmt.Sprint(n))
+	}
+}
+
+// lastIndexSites: index expressions a[v] in package promql where v is a local variable whose definition is
+// len(a) − 1; each must be protected by an emptiness test of a: an enclosing condition implying len(a) > 0, or an
+// earlier sibling `if len(a) == 0 / < k { return | continue | break }` of one of its enclosing statements.
+func lastIndexGuarded(g *eng.Graph, site *ast.IndexExpr, arr, idx string) bool {
+	ok := false
+	var stack []ast.Node
+	done := false
+	emptyTest := func(e ast.Expr) (positive, negative bool) {
+		// positive: e implies len(arr) > 0 ; negative: e is "arr is empty / too short"
+		var walk func(e ast.Expr)
+		walk = func(e ast.Expr) {
+			e = ast.Unparen(e)
+			if be, isB := e.(*ast.BinaryExpr); isB && (be.Op.String() == "&&" || be.Op.String() == "||") {
+				walk(be.X)
+				walk(be.Y)
+				return
+			}
+			l, isL := eng.LinearCmp(g.Info, e)
+			if !isL {
+				return
+			}
+			t := "len(" + arr + ")"
+			if l == "-1*"+t+" < 0" || strings.HasPrefix(l, "-1*"+t+" +") && strings.HasSuffix(l, " < 0") {
+				positive = true // len > k, k ≥ 0
+			}
+			if l == "-1*"+idx+" -1 < 0" || l == "-1*"+idx+" < 0" {
+				positive = true // the index variable itself is tested: idx ≥ 0 (a downward loop from len−1)
+			}
+			if l == "+1*"+t+" == 0" || strings.HasPrefix(l, "+1*"+t+" -") && strings.HasSuffix(l, " < 0") {
+				negative = true // len == 0 or len < k
+			}
+		}
+		walk(e)
+		return
+	}
+	exits := func(b *ast.BlockStmt) bool {
+		if len(b.List) == 0 {
+			return false
+		}
+		switch s := b.List[len(b.List)-1].(type) {
+		case *ast.ReturnStmt:
+			return true
+		case *ast.BranchStmt:
+			return s.Tok.String() == "continue" || s.Tok.String() == "break"
+		case *ast.ExprStmt:
+			return strings.HasPrefix(nodeText(s), "panic(") || strings.Contains(nodeText(s), ".errorf(") || strings.Contains(nodeText(s), ".error(")
+		}
+		return false
+	}
+	ast.Inspect(g.Body, func(x ast.Node) bool {
+		if done {
+			return false
+		}
+		if x == nil {
+			stack = stack[:len(stack)-1]
+			return true
+		}
+		stack = append(stack, x)
+		if x != ast.Node(site) {
+			return true
+		}
+		done = true
+		for i := len(stack) - 2; i >= 0; i-- {
+			switch s := stack[i].(type) {
+			case *ast.IfStmt:
+				if stack[i+1] == ast.Node(s.Body) {
+					if pos, _ := emptyTest(s.Cond); pos {
+						ok = true
+					}
+				}
+				if s.Else != nil && stack[i+1] == ast.Node(s.Else) {
+					if _, neg := emptyTest(s.Cond); neg {
+						ok = true
+					}
+				}
+			case *ast.ForStmt:
+				if s.Cond != nil {
+					if pos, _ := emptyTest(s.Cond); pos {
+						ok = true
+					}
+				}
+			case *ast.BinaryExpr:
+				if s.Op.String() == "&&" && stack[i+1] == ast.Node(s.Y) {
+					if pos, _ := emptyTest(s.X); pos {
+						ok = true
+					}
+				}
+			case *ast.BlockStmt:
+				for _, st := range s.List {
+					if st == stack[i+1] {
+						break
+					}
+					if is, isIf := st.(*ast.IfStmt); isIf {
+						if _, neg := emptyTest(is.Cond); neg && exits(is.Body) {
+							ok = true
+						}
+					}
+				}
+			case *ast.CaseClause:
+				for _, st := range s.Body {
+					if st == stack[i+1] {
+						break
+					}
+					if is, isIf := st.(*ast.IfStmt); isIf {
+						if _, neg := emptyTest(is.Cond); neg && exits(is.Body) {
+							ok = true
+						}
+					}
+				}
+				if len(s.List) == 1 {
+					if pos, _ := emptyTest(s.List[0]); pos {
+						ok = true
+					}
+				}
+			}
+		}
+		return false
+	})
+	return ok
 }
 
 // indexGuarded: some enclosing if (true arm) or for condition has a conjunct whose linear normal form is
